@@ -141,6 +141,16 @@ def run_case(case, ctx):
             on_error=edzed.Event(err), on_cancel=edzed.Event(cnc),
             on_output=edzed.Event(outp), stop_timeout=case.get('stop_timeout', 100), **kwargs)
         state['oa'] = oa
+        for k, (work, tmo) in enumerate(case.get('neighbours', ())):
+            # other blocks with asynchronous clean-up (longer time-outs, stopped concurrently):
+            # every block has its own stop_timeout, measured from the common start of the stop
+            class Neighbour(edzed.AddonAsync, edzed.SBlock):
+                def init_regular(self):
+                    self.set_output(0)
+
+                async def stop_async(self, work=work):
+                    await asyncio.sleep(work)
+            Neighbour(f"nb{k}", stop_timeout=tmo)
         return {'oa': oa}
 
     async def drive(sim, objs):
@@ -174,6 +184,24 @@ def run_case(case, ctx):
         # initialisation: the OutputAsync block was started but never initialised
         edzed.reset_circuit()
         build()
+        if case.get('init_shutdown'):
+            # a block requests the shutdown from inside the simulation task during the
+            # synchronous initialisation (its initdef makes it send a 'shutdown' control event):
+            # nothing raises, nothing is awaited before the clean-up begins
+            edzed.Input('trig', initdef=1, on_output=edzed.Event('_ctrl', 'shutdown'))
+            ctx.count('shutdown_requested_during_sync_init')
+            sim = harness.Sim()
+            state['sim'] = sim
+            state['t0'] = loop.time()
+            state['alive_before_stop'] = True
+            state['output_before_stop'] = None
+            hist.log('stop_called')
+            sim.task = asyncio.create_task(sim.circuit.run_forever(), name='vf: simtask')
+            try:
+                await sim.task
+            except BaseException:   # pylint: disable=broad-except
+                pass
+            return
 
         class Slow(edzed.AddonAsync, edzed.SBlock):
             async def init_async(self):
@@ -544,6 +572,185 @@ def run_one(case, ctx, enumerated=False):
 MODE_NAMES = {'cancel': ['cancel', 'c'], 'wait': ['wait', 'w'], 'start': ['start', 's']}
 
 
+def run_early_put(case, ctx):
+    """
+    A 'put' that reaches the output block at the very beginning of the initialisation (an
+    external event right after the start of the simulation task, or the on_output event of a
+    block restored from saved state) while another block keeps the initialisation phase open:
+    the output is the number of active runs at every sampled instant and 0 when idle.
+    """
+    import edzed
+    mode, how, dur = case['mode'], case['how'], case['dur']
+    active = [0]
+    samples = []
+    results = []
+
+    def build():
+        async def work(value):
+            active[0] += 1
+            samples.append((f"start {value}", oa.output, active[0]))
+            try:
+                await asyncio.sleep(dur)
+            finally:
+                active[0] -= 1
+            return value
+
+        async def slow_init():
+            await asyncio.sleep(case['init'])
+            return 'ready'
+
+        class Res(edzed.SBlock):
+            def init_regular(self):
+                self.set_output(0)
+
+            def _event(self, etype, data):
+                results.append((self.name, (data.get('put') or {}).get('value')))
+        Res('success'), Res('error'), Res('cancel')
+        if how == 'restored':
+            # created BEFORE the output block: restores its state and sends it first
+            edzed.Input('inp', persistent=True, initdef='default', on_output=edzed.Event('oa'))
+        oa = edzed.OutputAsync('oa', coro=work, mode=mode, stop_timeout=20,
+                               on_success=edzed.Event('success'), on_error=edzed.Event('error'),
+                               on_cancel=edzed.Event('cancel'))
+        if how == 'restored_after':
+            edzed.Input('inp', persistent=True, initdef='default', on_output=edzed.Event('oa'))
+        edzed.InitAsync('ini', init_coro=[slow_init], init_timeout=10.0)
+        return oa
+
+    async def main(loop):
+        edzed.reset_circuit()
+        oa = build()
+        circuit = edzed.get_circuit()
+        if how != 'ext':
+            circuit.set_persistent_data({"<Input 'inp'>": 'saved', 'edzed-stop-time': 0.0})
+        simtask = asyncio.create_task(circuit.run_forever())
+        await asyncio.sleep(0)
+        nputs = 1
+        if how == 'ext':
+            if not circuit.is_ready():
+                raise core.Inconclusive("C12: circuit not ready right after the start")
+            edzed.ExtEvent(oa).send('early')
+        await circuit.wait_init()
+        samples.append(('initialised', oa.output, active[0]))
+        for k in range(3):
+            await asyncio.sleep(dur / 2)
+            samples.append((f"+{k + 1} half run(s)", oa.output, active[0]))
+        edzed.ExtEvent(oa).send('second')
+        nputs += 1
+        await asyncio.sleep(dur / 2)
+        samples.append(('second run in progress', oa.output, active[0]))
+        await asyncio.sleep(dur)
+        samples.append(('idle after the second run', oa.output, active[0]))
+        await circuit.shutdown()
+        try:
+            await simtask
+        except asyncio.CancelledError:
+            pass
+        samples.append(('stopped', oa.output, active[0]))
+        return nputs
+
+    loop, nputs, exc = vloop.run(main)
+    edzed.reset_circuit()
+    where = f"early put, {case}"
+    if isinstance(exc, core.Inconclusive):
+        raise exc
+    if exc is not None:
+        raise core.Violation('harness-run-exception', f"{where}: {exc!r}")
+    ctx.count('early_put_cases')
+    ctx.count('output_changes_checked', len(samples))
+    bad = [smp for smp in samples if smp[1] != smp[2]]
+    if bad:
+        raise core.Violation(
+            'output-not-active-count',
+            f"{where}: (instant, output, active runs) {bad[:4]} of {samples}")
+    if len(results) != nputs:
+        raise core.Violation('put-without-result',
+                             f"{where}: {nputs} puts, results {results}")
+    ctx.count('results_matched', len(results))
+
+
+def run_noargs(case, ctx):
+    """
+    An output coroutine that takes no event data at all (f_args=(), f_kwargs=()): puts are
+    delivered directly (SBlock.event('put'), the way another block's code would do it) with no
+    data items, via an Event (source item only) or via ExtEvent.  Every accepted put = one
+    result; nothing distinguishes the runs, so they are counted.
+    """
+    import edzed
+    mode, times, dur, how = case['mode'], case['times'], case['dur'], case['how']
+    log = {'starts': 0, 'ends': 0, 'cancelled': 0, 'results': [], 'accepted': 0, 'outputs': []}
+
+    async def coro():
+        log['starts'] += 1
+        try:
+            await asyncio.sleep(dur)
+        except asyncio.CancelledError:
+            log['cancelled'] += 1
+            raise
+        log['ends'] += 1
+        return 'done'
+
+    def build():
+        class Res(edzed.SBlock):
+            def init_regular(self):
+                self.set_output(0)
+
+            def _event(self, etype, data):
+                log['results'].append((self.name, dict(data.get('put') or {})))
+        ok, err, cnc = Res('success'), Res('error'), Res('cancel')
+        oa = edzed.OutputAsync('oa', coro=coro, f_args=(), mode=mode, on_success=edzed.Event(ok),
+                               on_error=edzed.Event(err), on_cancel=edzed.Event(cnc),
+                               stop_timeout=50)
+        trig = edzed.Input('trig', initdef=0, on_every_output=edzed.Event(oa, 'put', efilter=(
+            edzed.not_from_undef, edzed.DataEdit.permit('source'))))
+        return {'oa': oa, 'trig': trig}
+
+    async def drive(sim, objs):
+        loop = asyncio.get_running_loop()
+        t0 = loop.time()
+        oa = objs['oa']
+
+        def fire(k):
+            try:
+                if how == 'direct':
+                    oa.event('put')
+                elif how == 'event':
+                    edzed.ExtEvent(objs['trig']).send(k)
+                else:
+                    edzed.ExtEvent(oa).send()
+                log['accepted'] += 1
+            except Exception as exc:    # pylint: disable=broad-except
+                log.setdefault('put_exc', []).append(repr(exc))
+        for k, t in enumerate(times):
+            loop.call_at(t0 + t, fire, k)
+        await asyncio.sleep(times[-1] + 4 * dur * len(times) + 1.0)
+        log['output_when_idle'] = oa.output
+        log['alive'] = sim.alive()
+        return True
+    out = harness.run_sim(build, drive)
+    where = f"no-argument coroutine, {case}"
+    if out['exc'] is not None or not out['started']:
+        raise core.Violation('harness-run-exception', f"{where}: {out['exc']!r} {out['sim'].init_exc!r}")
+    ctx.count('noargs_puts', log['accepted'])
+    if log.get('put_exc') or not log['alive']:
+        raise core.Violation('put-not-accepted', f"{where}: {log.get('put_exc')}, simulation alive: "
+                             f"{log['alive']}, error {out['sim'].circuit.error!r}")
+    if len(log['results']) != log['accepted']:
+        raise core.Violation(
+            'put-without-result',
+            f"{where}: {log['accepted']} puts accepted, {len(log['results'])} result events "
+            f"{[r[0] for r in log['results']]}; runs started {log['starts']}, finished {log['ends']}")
+    if mode in ('wait', 'start') and (log['ends'] != log['accepted'] or log['cancelled']):
+        raise core.Violation(
+            'run-missing', f"{where}: {log['accepted']} puts, {log['ends']} runs completed, "
+            f"{log['cancelled']} cancelled")
+    if mode == 'cancel' and not any(r[0] == 'success' for r in log['results'][-1:]):
+        raise core.Violation('last-put-not-completed', f"{where}: results {log['results']}")
+    if log['output_when_idle'] != 0:
+        raise core.Violation('output-not-zero-when-idle', f"{where}: output {log['output_when_idle']!r}")
+    ctx.count('results_matched', len(log['results']))
+
+
 def gen(ctx):
     quick = ctx.tier == 'quick'
     grid = GRID4 if quick else GRID6
@@ -586,6 +793,18 @@ def gen(ctx):
                     yield {'mode': mode, 'guard': None, 'stop_data': sd, 'puts': [], 'stop': stop,
                            'preinit_stop': True, 'stop_dur': 1.0 if stop == 1.0 else 0,
                            'persist': True}, True
+                    yield {'mode': mode, 'guard': None, 'stop_data': sd, 'puts': [], 'stop': stop,
+                           'preinit_stop': True, 'stop_dur': 1.0 if stop == 1.0 else 0,
+                           'init_shutdown': True}, True
+    # pending work that fits into the block's own stop_timeout only just, next to two other
+    # blocks whose (longer) asynchronous clean-up is awaited first
+    for mode in ('wait', 'cancel', 'start'):
+        for work, tmo in ((2.0, 2.0), (1.5, 1.75), (2.9, 3.0)):
+            idx += 1
+            if idx % ctx.nshards == ctx.shard:
+                yield {'mode': mode, 'guard': None, 'stop_data': False,
+                       'puts': [[0.25, work, False]], 'stop': 0.5, 'stop_timeout': tmo,
+                       'neighbours': [[0.5 * work, 10.0], [0.6 * work, 5.0]]}, True
     rng = ctx.rng('random')
     nrand = 300 if quick else 60000
     for i in range(nrand):
@@ -625,8 +844,46 @@ def gen(ctx):
 def run_shard(ctx):
     for case, enumerated in gen(ctx):
         run_one(case, ctx, enumerated)
+    idx = 0
+    for mode in ('wait', 'cancel', 'start'):
+        for how in ('direct', 'event', 'ext'):
+            for times in ([0.25], [0.25, 0.25], [0.25, 0.5, 2.0], [0.0, 0.25, 0.3, 0.35]):
+                idx += 1
+                if idx % ctx.nshards != ctx.shard:
+                    continue
+                case = {'noargs': True, 'mode': mode, 'how': how, 'times': times, 'dur': 0.5}
+                try:
+                    run_noargs(case, ctx)
+                except core.Violation as v:
+                    ctx.violation(case, v.key, v.msg)
+                ctx.case_done(case, True, None, enumerated=True)
+        for how in ('ext', 'restored', 'restored_after'):
+            for init, dur in ((0.25, 1.0), (2.0, 0.5), (0.5, 0.5)):
+                idx += 1
+                if idx % ctx.nshards != ctx.shard:
+                    continue
+                case = {'early_put': True, 'mode': mode, 'how': how, 'init': init, 'dur': dur}
+                try:
+                    run_early_put(case, ctx)
+                except core.Violation as v:
+                    ctx.violation(case, v.key, v.msg)
+                ctx.case_done(case, True, None, enumerated=True)
     ctx.exhaustive = True
 
 
 def replay(rep, ctx):
+    if rep['case'].get('early_put'):
+        try:
+            run_early_put(rep['case'], ctx)
+        except core.Violation as v:
+            ctx.violation(rep['case'], v.key, v.msg)
+        ctx.case_done(rep['case'], True)
+        return
+    if rep['case'].get('noargs'):
+        try:
+            run_noargs(rep['case'], ctx)
+        except core.Violation as v:
+            ctx.violation(rep['case'], v.key, v.msg)
+        ctx.case_done(rep['case'], True)
+        return
     run_one(rep['case'], ctx)
